@@ -49,7 +49,7 @@ def do_import(pid, src, offset=0):
     print(f"imported {n} change(s) for {pid}")
 
 
-def do_eval(ids, tier_first="quick", suite=True):
+def do_eval(ids, tier_first="quick", suite=True, thorough=True):
     scratch = Path(tempfile.mkdtemp(prefix="odcgeo-seed-"))
     try:
         repo = scratch / "repo"
@@ -86,7 +86,7 @@ def do_eval(ids, tier_first="quick", suite=True):
                                    "subchecks": sorted({v.split(":")[0].replace("violation in ", "") for v in viol if v.startswith("violation in")})}
             ran.append(f"VERIF_REPO=<scratch> vf.run {pid} --tier {tier_first}: rc={rc} in {wall}s")
             meta.pop("check_thorough", None)
-            if rc == 0:
+            if rc == 0 and thorough:
                 rc2, wall2, viol2, out2 = run_check(pid, repo, "thorough", timeout=3600)
                 meta["check_thorough"] = {"result": {0: "MISSED", 1: "caught", 2: "harness-error"}.get(rc2, f"rc={rc2}"), "wall_s": wall2,
                                           "subchecks": sorted({v.split(":")[0].replace("violation in ", "") for v in viol2 if v.startswith("violation in")})}
@@ -108,6 +108,7 @@ if __name__ == "__main__":
     ap.add_argument("args", nargs="*")
     ap.add_argument("--tier", default="quick")
     ap.add_argument("--no-suite", action="store_true")
+    ap.add_argument("--no-thorough", action="store_true", help="do not fall back to the thorough tier when quick misses")
     ap.add_argument("--offset", type=int, default=0, help="import: add to the change number (round 2 -> --offset 2)")
     a = ap.parse_args()
     if a.cmd == "report":
@@ -126,4 +127,4 @@ if __name__ == "__main__":
         do_import(a.args[0].upper(), a.args[1], a.offset)
     else:
         ids = a.args or sorted(p.name for p in (ROOT / "seeded").iterdir() if p.is_dir())
-        do_eval(ids, a.tier, not a.no_suite)
+        do_eval(ids, a.tier, not a.no_suite, not a.no_thorough)
